@@ -41,12 +41,13 @@ is_ipv4 (const char *start, const char *end)
             }
         }
         else if (ch == '.') {
-            if (in_byte == 0 || cp[1] == 0) {
+            if (in_byte == 0 || cp + 1 == end || cp[1] == 0) {
                 /* misplaced dot */
                 return (NO);
             }
             /* XXX Allow 0.0.0.0 but not 0.1.2.3 */
-            if (byte_count == 1 && byte_val == 0 && start[strspn(start, "0.")]) {
+            if (byte_count == 1 && byte_val == 0 &&
+                start + strspn(start, "0.") < end && start[strspn(start, "0.")]) {
                 return (NO);
             }
             /* try next byte */
@@ -80,20 +81,15 @@ is_ipv6 (const char *start, const char *end)
         switch (*cp) {
         case 0:
             /* Terminate the loop. */
-            if (field < 2) {
-                /* too few `:' in IPv6 address*/
-                return (NO);
-            }
-            else if (len == 0 && null_field != field - 1) {
-                /* bad null last field in IPv6 address */
-                return (NO);
-            }
-            else
-                return (YES);
+            goto last;
         case '.':
             /* Terminate the loop. */
             if (field < 2 || field > 6) {
                 /* malformed IPv4-in-IPv6 address */
+                return (NO);
+            }
+            else if (null_field == 0 && field != 6) {
+                /* too few fields before IPv4-in-IPv6 address */
                 return (NO);
             }
             else
@@ -135,6 +131,21 @@ is_ipv6 (const char *start, const char *end)
         } break;
         } /* switch */
     } /* for (;;) */
+
+last:
+    /* the address ends at `end' or at the terminator, whichever comes first */
+    if (field < 2) {
+        /* too few `:' in IPv6 address*/
+        return (NO);
+    }
+    else if (len == 0 && null_field != field - 1) {
+        /* bad null last field in IPv6 address */
+        return (NO);
+    }
+    else if (null_field == 0 && field != 7) {
+        /* too few fields in IPv6 address without `::' */
+        return (NO);
+    }
 
     return (YES);
 }
